@@ -809,7 +809,7 @@ func ruleC14LockPair(cx *Ctx) {
 		})
 	}
 	// the hand-off receiver: drainBuffers releases on the token-won branch
-	db := cx.need(rule, "", "cache", "drainBuffers")
+	db := drainTaskFn(cx, rule)
 	maint := cx.P.Func("", "cache", "maintenance")
 	if db == nil || maint == nil {
 		return
@@ -838,7 +838,7 @@ func ruleC14LockPair(cx *Ctx) {
 }
 
 func tokenPassedToDrain(cx *Ctx, fn *ssa.Function, tok ssa.Value) bool {
-	db := cx.P.Func("", "cache", "drainBuffers")
+	db := drainTaskFn(cx, "")
 	if db == nil {
 		return false
 	}
@@ -851,6 +851,9 @@ func tokenPassedToDrain(cx *Ctx, fn *ssa.Function, tok ssa.Value) bool {
 			// a named method handed over as a value (job.run) that reaches drainBuffers
 			if mc, ok := in.(*ssa.MakeClosure); ok {
 				if bm := boundMethod(mc); bm != nil {
+					if origin(bm) == origin(db) {
+						found = true
+					}
 					if ok, _ := reachesInstr(origin(bm), func(x ssa.Instruction) bool { return isCallTo(x, db) }, map[*ssa.Function]bool{}, nil); ok {
 						found = true
 					}
@@ -883,7 +886,7 @@ func ruleC14Dispatch(cx *Ctx) {
 	const rule = "C14.dispatch"
 	cx.R.Rule(rule, 1, "a scheduled drain really runs maintenance: scheduleDrainBuffers publishes processingToIdle and hands a task to the executor that must reach maintenance; drainBuffers reaches maintenance on all paths")
 	sdb := cx.need(rule, "", "cache", "scheduleDrainBuffers")
-	db := cx.need(rule, "", "cache", "drainBuffers")
+	db := drainTaskFn(cx, rule)
 	maint := cx.need(rule, "", "cache", "maintenance")
 	mu := cx.needField(rule, "", "cache", "evictionMutex")
 	ds := cx.needField(rule, "", "cache", "drainStatus")
@@ -1054,4 +1057,53 @@ func tokenClaim(in ssa.Instruction) (ssa.Value, bool) {
 		return nil, false
 	}
 	return cc.Args[0], true
+}
+
+// drainTaskFn: the function the executor runs for a scheduled drain - cache.drainBuffers, or, when the hand-off became an
+// object of its own, the function handed to the executor by scheduleDrainBuffers (or called by that closure) that
+// try-locks the eviction mutex. rule == "": no obligation is recorded when nothing is found.
+func drainTaskFn(cx *Ctx, rule string) *ssa.Function {
+	if f := cx.P.Func("", "cache", "drainBuffers"); f != nil && len(f.Blocks) > 0 {
+		return f
+	}
+	sched := cx.P.Func("", "cache", "scheduleDrainBuffers")
+	ex := cx.P.Field("", "cache", "executor")
+	mu := cx.P.Field("", "cache", "evictionMutex")
+	var found *ssa.Function
+	if sched != nil && ex != nil && mu != nil {
+		consider := func(f *ssa.Function) {
+			if f == nil || found != nil {
+				return
+			}
+			f = origin(f)
+			allInstrs(f, func(in ssa.Instruction) {
+				if mutexOp(in, mu, "TryLock") {
+					found = f
+				}
+			})
+		}
+		allInstrs(sched, func(in ssa.Instruction) {
+			cc := callCommon(in)
+			if cc == nil || cc.IsInvoke() || cc.StaticCallee() != nil || !sameField(fieldOf(cc.Value), ex) || len(cc.Args) != 1 {
+				return
+			}
+			var cands []*ssa.Function
+			if cl := closureOf(cc.Args[0]); cl != nil {
+				cands = append(cands, cl)
+			}
+			cands = append(cands, funcValuesOf(cc.Args[0], 0, map[ssa.Value]bool{}, nil)...)
+			for _, f := range cands {
+				consider(f)
+				allInstrs(f, func(x ssa.Instruction) {
+					if c := calleeOf(x); c != nil && c.Pkg != nil && strings.HasPrefix(c.Pkg.Pkg.Path(), modPath) {
+						consider(c)
+					}
+				})
+			}
+		})
+	}
+	if found == nil && rule != "" {
+		cx.R.Undecided(rule, "cache.drainBuffers", "anchor", "-", "anchored mechanism cache.drainBuffers does not resolve any more")
+	}
+	return found
 }
